@@ -42,6 +42,10 @@ class Comment(TypedExpression):
             if "\n" in inner:
                 indent_prefix = " " * node.start_point.column
                 lines = inner.split("\n")
+                # rebuild() re-adds the padding after the opener and before the
+                # closer, so it must not be kept as part of the text.
+                lines[0] = lines[0].lstrip(" ")
+                lines[-1] = lines[-1].rstrip(" ")
                 normalized = [lines[0]]
                 for line in lines[1:]:
                     if indent_prefix and line.startswith(indent_prefix):
